@@ -182,37 +182,38 @@ def _find_shared_nodes(
   # node is also used within sub-fixtures, it's a shared node.
   daglish.BasicTraversal.run(traverse, top_level_fn)
 
-  # 2nd pass: find out shared nodes within sub-fixtures
-  ancestor_fixture = {}
+  # 2nd pass: find out shared nodes within sub-fixtures. A sub-fixture's own
+  # nodes are those reachable from it without entering another sub-fixture
+  # (nodes inside a nested sub-fixture belong to the nested one); a node that
+  # is owned by several fixtures is shared.
   sub_fixture_values = list(sub_fixtures.values())
+  own_node_ids = []
+  for fixture in sub_fixture_values:
+    own_ids = set()
+
+    def traverse_own(value: Any, state: daglish.State, fixture=fixture,
+                     own_ids=own_ids) -> Any:
+      if id(value) in sub_fixture_ids and value is not fixture:
+        return value
+      own_ids.add(id(value))
+      return state.map_children(value)
+
+    daglish.BasicTraversal.run(traverse_own, fixture)
+    own_node_ids.append(own_ids)
+
   for idx, fixture in enumerate(sub_fixture_values):
     for value, path in daglish.iterate(fixture, memoized=False):
-      if not daglish.is_unshareable(value):
-        used_by_sub_fixture = False
-        if id(value) in ancestor_fixture:
-          if ancestor_fixture[id(value)] != idx:
-            # Check if the node is shared among multiple sub-fixtures.
-            # If sub-fixture A contains sub-fixture B, nodes within B should
-            # not be classified as shared if they are not used somewhere else.
-            ancestor = ancestor_fixture[id(value)]
-            ancestor_id = id(sub_fixture_values[ancestor])
-            value_id = id(sub_fixture_values[idx])
-            if _is_super_ancestor(
-                ancestor_id, {value_id}, node_to_parents_by_id
-            ):
-              ancestor_fixture[id(value)] = idx
-            elif not _is_super_ancestor(
-                value_id, {ancestor_id}, node_to_parents_by_id
-            ):
-              used_by_sub_fixture = True
-        else:
-          ancestor_fixture[id(value)] = idx
-        used_by_top_fixture = id(value) in top_fixture_node_ids
-        if used_by_top_fixture or used_by_sub_fixture:
-          # Do not identify user specified sub-fixtures as shared nodes
-          if id(value) not in sub_fixture_ids:
-            shared_nodes[id(value)] = value
-            shared_node_paths[id(value)] = path
+      if daglish.is_unshareable(value) or id(value) not in own_node_ids[idx]:
+        continue
+      used_by_sub_fixture = any(
+          id(value) in own_node_ids[other] for other in range(idx)
+      )
+      used_by_top_fixture = id(value) in top_fixture_node_ids
+      if used_by_top_fixture or used_by_sub_fixture:
+        # Do not identify user specified sub-fixtures as shared nodes
+        if id(value) not in sub_fixture_ids:
+          shared_nodes[id(value)] = value
+          shared_node_paths[id(value)] = path
 
   return shared_nodes, shared_node_paths
 
